@@ -201,7 +201,7 @@ fn render_line(
                 DocIR::Text(t) => t.starts_with('|'),
                 _ => false,
             }) {
-                docs.push(ir::text("--- | "));
+                docs.push(ir::text("--- |"));
 
                 if let Some(first) = body.first() {
                     let inner = match first {
@@ -209,9 +209,15 @@ fn render_line(
                         DocIR::Text(t) if t.starts_with('|') => t[1..].to_string(),
                         _ => String::new(),
                     };
-                    if !inner.is_empty() {
-                        body[0] = ir::text(inner);
-                    }
+                    // Keep the spacing written after the bar and only make sure there is some:
+                    // adding a space unconditionally shifted the line on every pass, and a lone
+                    // `|` was printed twice.
+                    let inner = if inner.is_empty() || inner.starts_with([' ', '\t']) {
+                        inner
+                    } else {
+                        format!(" {inner}")
+                    };
+                    body[0] = ir::text(inner);
                 }
                 docs.append(&mut body);
             } else {
